@@ -453,7 +453,8 @@ def obligations(tier, build):
                                           "container": "TraitListObject owned by a HasTraits object; 1 legacy + 2 observe handlers"},
                                   leverage="all slice fields", max_paths=60000, **ocommon))
     for label, fac_ in (("owned-anytrait", owners.list_factory(route="anytrait")), ("owned-added", owners.list_factory(added=True)),
-                        ("owned-added-anytrait", owners.list_factory(route="anytrait", added=True))):
+                        ("owned-added-anytrait", owners.list_factory(route="anytrait", added=True)),
+                        ("owned-added-over", owners.list_factory(added="over"))):
         for n in (0, 1, 2):
             for op in ("set_int", "del_int", "insert", "pop", "append", "clear", "reverse", "imul"):
                 obs.append(Obligation("%s/%s/n=%d" % (label, op, n), make_harness(op, n, factory=fac_, twins=True),
